@@ -410,8 +410,11 @@ def rename (s : Store) (v : View) (oldpath newpath : Bytes) : Store × Out :=
         | _ => (s, .err .EEXIST)
     | none => (s, .panic)
 
+/-- maxFileSize (memfs_types.go): the content of a file is one byte slice -/
+def maxFileSize : Nat := 2147483647
+
 def truncate (s : Store) (v : View) (name : Bytes) (size : Int) : Store × Out :=
-  if size < 0 then (s, .err .EINVAL) else
+  if size < 0 || size > maxFileSize then (s, .err .EINVAL) else
   let r := searchNode s v name .eval
   if r.err != .exists then (s, .err r.err.toErr) else
   match r.child with
